@@ -58,6 +58,15 @@ def mirror_pairs(tier):
                 a = lattice.mk(g, orth, opt=oa, tags=["mirrorA"])
                 b = lattice.mk(g, orth, opt=ob, mirror=True, tags=["mirrorB"])
                 out.append((a, b, "%s/%s/Nfine=%d" % (g, "orth" if orth else "nonorth", nf)))
+    # non-orthogonal spacing ranges that differ between the private-flux and the SOL side: the
+    # X.wall legs of one image are the wall.X legs of the other
+    non = dict(nonorthogonal_target_all_poloidal_spacing_range_inner=0.4,
+               nonorthogonal_target_all_poloidal_spacing_range_outer=1.6)
+    for g in (("lsn",) if tier == "quick" else ("lsn", "cdn", "ldn")):
+        o = dict(finecontour_Nfine=50)
+        a = lattice.mk(g, False, opt=o, non=non, tags=["mirrorA"])
+        b = lattice.mk(g, False, opt=o, non=non, mirror=True, tags=["mirrorB"])
+        out.append((a, b, "%s/nonorth/range_inner!=range_outer" % g))
     if tier == "thorough":
         a = lattice.mk("lsn", True, opt=dict(psi_interpolation_method="dct"), nR=33, nZ=41, tags=["mirrorA"])
         b = lattice.mk("lsn", True, opt=dict(psi_interpolation_method="dct"), nR=33, nZ=41, mirror=True, tags=["mirrorB"])
@@ -65,7 +74,7 @@ def mirror_pairs(tier):
     return out
 
 
-EQUAL = ["psixy", "hy", "Bxy", "g11", "g22", "g33", "g_11", "g_22", "g_33"]
+EQUAL = ["psixy", "hy", "Bxy", "g11", "g22", "g33", "g_11", "g_22", "g_33", "pressure"]
 ABS = ["Bpxy", "J"]
 
 
@@ -184,14 +193,15 @@ def reversal_members():
 def check_reversal(ctx, arts_by, stats):
     twopi = 2 * np.pi
     # variable -> factor under each transformation (None = not judged)
-    same = dict(Rxy=1, Zxy=1, hy=1, Bxy=1, g11=1, g22=1, g33=1, g_11=1, g_22=1, g_33=1, poloidal_distance=1)
+    same = dict(Rxy=1, Zxy=1, hy=1, Bxy=1, g11=1, g22=1, g33=1, g_11=1, g_22=1, g_33=1, poloidal_distance=1,
+                pressure=1)
     rules = {
         "reverse_current": dict(same, psixy=-1, Brxy=-1, Bzxy=-1, Bpxy=-1, Btxy=1, dx=-1, zShift=1, J=-1),
         "sigma": dict(same, psixy=-1, Brxy=-1, Bzxy=-1, Bpxy=-1, Btxy=1, dx=-1, zShift=1, J=-1),
         "reverse_Bt": dict(same, psixy=1, Brxy=1, Bzxy=1, Bpxy=1, Btxy=-1, dx=1, zShift=-1, dphidy=-1, J=1, g23=-1, g_23=-1),
         "psi_divide_twopi": dict(Rxy=1, Zxy=1, hy=1, psixy=1 / twopi, Brxy=1 / twopi, Bzxy=1 / twopi, Bpxy=1 / twopi,
                                  Btxy=1, dx=1 / twopi, g11=1 / twopi**2, g22=1, g_11=twopi**2, g_22=None, J=twopi,
-                                 zShift=twopi, poloidal_distance=1),
+                                 zShift=twopi, poloidal_distance=1, pressure=1),
     }
     for mode, d in arts_by.items():
         base = d["base"]
